@@ -119,13 +119,15 @@ pub struct Gen<'c> {
     pub feats: std::collections::BTreeSet<&'static str>,
     /// known-finding ids whose trigger shape was about to be generated and was replaced
     pub excluded: Vec<String>,
+    /// number of dynamic-wind bodies the expression being generated will sit in
+    pub wind_depth: usize,
 }
 
 const LOCAL_NAMES: &[&str] = &["a", "b", "c", "x", "y", "n", "f", "g"];
 
 impl<'c> Gen<'c> {
     pub fn new(data: &'c [u16], opts: GenOpts) -> Self {
-        Gen { c: Chooser::new(data), opts, scope: vec![], fresh: 0, feats: Default::default(), excluded: vec![] }
+        Gen { c: Chooser::new(data), opts, scope: vec![], fresh: 0, feats: Default::default(), excluded: vec![], wind_depth: 0 }
     }
 
     fn feat(&mut self, f: &'static str) {
@@ -1121,7 +1123,9 @@ impl<'c> Gen<'c> {
                 // escape out of a dynamic-wind body
                 self.feat("dynamic-wind");
                 self.feat("escape-through-wind");
+                self.wind_depth += 1;
                 let v = self.int(d.saturating_sub(2), true);
+                self.wind_depth -= 1;
                 Expr::CallCC(Box::new(lambda(
                     &["k"],
                     Body::single(Expr::DynamicWind(
@@ -1199,7 +1203,9 @@ impl<'c> Gen<'c> {
             5 => {
                 // normal return through nested winds
                 self.feat("dynamic-wind");
+                self.wind_depth += 1;
                 let v = self.int(d.saturating_sub(2), false);
+                self.wind_depth -= 1;
                 let inner = Expr::DynamicWind(
                     Box::new(lambda(&[], Body::single(app("display", vec![string("(")])))),
                     Box::new(lambda(&[], Body::single(v))),
@@ -1356,7 +1362,13 @@ impl<'c> Gen<'c> {
                     Box::new(lambda(&[], Body { defs: vec![], exprs: vec![app("display", vec![string("body")]), r, int(0)] })),
                     Box::new(lambda(&[], Body { defs: vec![], exprs: after_body })),
                 );
+                if escapes && self.wind_depth > 0 {
+                    self.feat("after-thunk-escapes-through-an-outer-wind");
+                }
                 if nested {
+                    if escapes {
+                        self.feat("after-thunk-escapes-through-an-outer-wind");
+                    }
                     inner = Expr::DynamicWind(
                         Box::new(lambda(&[], Body::single(app("display", vec![string("<o")])))),
                         Box::new(lambda(&[], Body::single(inner))),
@@ -1392,7 +1404,9 @@ impl<'c> Gen<'c> {
         let tag = self.c.range(0, 9);
         let before = lambda(&[], Body::single(app("display", vec![string(&format!("<{}", tag))])));
         let after = lambda(&[], Body::single(app("display", vec![string(&format!("{}>", tag))])));
+        self.wind_depth += 1;
         let body = self.int(d - 1, false);
+        self.wind_depth -= 1;
         Expr::DynamicWind(Box::new(before), Box::new(lambda(&[], Body::single(body))), Box::new(after))
     }
 
